@@ -763,6 +763,13 @@ func replay(t *testing.T, tr *vhlib.Trace, ops []vhlib.ParsedLine, thorough bool
 			if w != nil {
 				w.doRestart(tr, op)
 			}
+		case "irestart":
+			if w != nil {
+				if lw == nil {
+					lw = newL2World(w, batch)
+				}
+				lw.doIRestart(tr, op)
+			}
 		case "vop":
 			if w != nil {
 				w.doVolumeOp(tr, op)
